@@ -5,6 +5,8 @@
 //     longer text parsed in place;
 // (c) on syntax failure and on injected allocation failure at every position: zero
 //     blocks outstanding at return, free-members callable 1..3 times without harm.
+#include <sys/mman.h>
+#include <climits>
 #include "gen.hpp"
 #include "parse_common.hpp"
 
@@ -235,4 +237,43 @@ static Verdict check(const Fields &f) {
   return Verdict::pass();
 }
 
-const Harness vf::HARNESS = {"C03", gen, check, nullptr, nullptr};
+// Ranges longer than INT_MAX characters (a dimension no generated string reaches): a read-only, never-touched mapping
+// of zero pages; the very first character (NUL) is a syntax error, so a correct parser reads one character, reports
+// the error at `first`, leaves nothing allocated and an output structure that can be released.
+template <class A> static Verdict huge_range(size_t extra, int entry) {
+  using Ch = typename A::Ch;
+  size_t chars = (size_t)INT_MAX + extra;
+  size_t bytes = chars * sizeof(Ch);
+  void *m = mmap(nullptr, bytes, PROT_READ, MAP_PRIVATE | MAP_ANONYMOUS | MAP_NORESERVE, -1, 0);
+  if (m == MAP_FAILED) { stats().relax("huge_range_mapping_unavailable"); return Verdict::pass(); }
+  const Ch *first = (const Ch *)m;
+  std::string err;
+  LedgerMM mm;
+  Outcome<A> o = parse_range<A>(first, first + chars, entry == 0 ? &mm : nullptr, &err, entry);
+  munmap(m, bytes);
+  VF_REQUIRE(err.empty(), "%s: range of INT_MAX+%zu characters: %s", A::name(), extra, err.c_str());
+  VF_REQUIRE(o.rc == URI_ERROR_SYNTAX && o.errOff == 0, "%s: range of INT_MAX+%zu characters starting with NUL: rc=%d error offset %ld (expected a syntax error at offset 0)", A::name(), extra, o.rc, o.errOff);
+  return Verdict::pass();
+}
+static Verdict enumerate(int tier, int shard, int nshards, Fields *failing) {
+  (void)tier; (void)nshards;
+  if (shard != 0) return Verdict::pass();
+  for (size_t extra : {(size_t)1, (size_t)4096, (size_t)INT_MAX})
+    for (int entry = 0; entry < 2; entry++) {
+      Verdict v = huge_range<Api<char>>(extra, entry);
+      if (v.kind == Verdict::PASS) v = huge_range<Api<wchar_t>>(extra, entry);
+      stats().evaluations++;
+      if (v.kind == Verdict::FAIL) { failing->seti("huge_range_extra", (long long)extra); failing->seti("entry", entry); return v; }
+      stats().nontrivial("huge" + std::to_string(extra) + "/" + std::to_string(entry), "range of INT_MAX+" + std::to_string(extra) + " characters, entry " + std::to_string(entry));
+    }
+  return Verdict::pass();
+}
+static Verdict check_dispatch(const Fields &f) {
+  if (f.has("huge_range_extra")) {
+    Verdict v = huge_range<Api<char>>((size_t)f.geti("huge_range_extra"), (int)f.geti("entry"));
+    return v.kind == Verdict::PASS ? huge_range<Api<wchar_t>>((size_t)f.geti("huge_range_extra"), (int)f.geti("entry")) : v;
+  }
+  return check(f);
+}
+
+const Harness vf::HARNESS = {"C03", gen, check_dispatch, enumerate, nullptr};
